@@ -77,17 +77,30 @@ Proof.
   rewrite Hshape. apply burst_detected. exact HB.
 Qed.
 
+Theorem single_flip_rejected c hd enc e ec rest a z :
+  (hd < 2 ^ (8 * N.of_nat (hlen_of c)))%N -> bytes_ok enc -> bytes_ok e -> length e = length enc -> (ec < 2 ^ 32)%N ->
+  payload_len c (header_of_data (is_some c) hd (checksum_koopman hd (hlen_of c))) = Z.of_nat (length enc) ->
+  error_bits e ec = zeros a ++ true :: zeros z ->
+  decode_segment c (write_header hd (hlen_of c) ++ xor_bytes enc e ++ write_crc32 (N.lxor (checksum_ieee enc) ec) ++ rest) = Err.
+Proof.
+  intros Hhd Henc He Hl Hec Hlen Hshape. apply (burst_rejected c hd enc e ec rest a [] z); try assumption. cbn. lia.
+Qed.
+
 Lemma zeros_length n : length (zeros n) = n.
 Proof. apply repeat_length. Qed.
 
 Theorem double_flip_rejected c hd enc e ec rest a m z :
   (hd < 2 ^ (8 * N.of_nat (hlen_of c)))%N -> bytes_ok enc -> bytes_ok e -> length e = length enc -> (ec < 2 ^ 32)%N ->
   payload_len c (header_of_data (is_some c) hd (checksum_koopman hd (hlen_of c))) = Z.of_nat (length enc) ->
-  Z.of_nat (length enc) <= 131071 ->
   error_bits e ec = zeros a ++ true :: zeros m ++ true :: zeros z ->
   decode_segment c (write_header hd (hlen_of c) ++ xor_bytes enc e ++ write_crc32 (N.lxor (checksum_ieee enc) ec) ++ rest) = Err.
 Proof.
-  intros Hhd Henc He Hl Hec Hlen Hmax Hshape. apply corrupted_payload_rejected; try assumption.
+  intros Hhd Henc He Hl Hec Hlen Hshape.
+  assert (Hmax : Z.of_nat (length enc) <= 131071).
+  { rewrite <- Hlen. unfold payload_len.
+    pose proof (header_of_data_lengths (is_some c) hd (checksum_koopman hd (hlen_of c))) as [H1 H2].
+    destruct (match c with None => true | Some _ => _ end); lia. }
+  apply corrupted_payload_rejected; try assumption.
   rewrite Hshape. apply double_bit_detected.
   assert (HL : length (error_bits e ec) = (8 * length enc + 32)%nat).
   { unfold error_bits. rewrite app_length, bits_of_bytes_length, Crc32Detect.bits_lsb_length. lia. }
@@ -106,4 +119,30 @@ Proof.
   intros Hl hd. unfold hd. split.
   - rewrite header_data_uncompressed_arith by lia. change (2 ^ (8 * N.of_nat (hlen_of None)))%N with 16777216%N. destruct sc; cbn [b2n]; lia.
   - rewrite hod_u by lia. reflexivity.
+Qed.
+
+(* ... and by every segment emitted with a compressor: [transmitted] is the compressed payload when it is not longer
+   than the payload (and the payload is not empty), else the payload itself with the header lengths swapped *)
+Lemma compressed_segment_shape (k : compressor) sc (p cp : list Z) :
+  Z.of_nat (length p) <= 131071 -> (p <> [] -> cp <> []) ->
+  let fits := Z.of_nat (length cp) <=? Z.of_nat (length p) in
+  let hd := if fits then header_data_compressed sc (Z.of_nat (length p)) (Z.of_nat (length cp))
+            else header_data_compressed sc 0 (Z.of_nat (length p)) in
+  let transmitted := if fits then cp else p in
+  (hd < 2 ^ (8 * N.of_nat (hlen_of (Some k))))%N /\
+  payload_len (Some k) (header_of_data true hd (checksum_koopman hd (hlen_of (Some k)))) = Z.of_nat (length transmitted).
+Proof.
+  intros Hl Hne fits hd transmitted. unfold hd, transmitted, fits.
+  destruct (Z.leb_spec (Z.of_nat (length cp)) (Z.of_nat (length p))) as [Hle|Hgt].
+  - split.
+    + rewrite header_data_compressed_arith by lia. change (2 ^ (8 * N.of_nat (hlen_of (Some k))))%N with 1099511627776%N. destruct sc; cbn [b2n]; lia.
+    + rewrite hod_c by lia. unfold payload_len.
+      destruct (Z.eqb_spec (Z.of_nat (length p)) 0) as [E|E].
+      * cbn [compressed_len uncompressed_len Z.eqb]. lia.
+      * assert (Hcp : cp <> []) by (apply Hne; intro; subst p; apply E; reflexivity).
+        assert (Z.of_nat (length cp) <> 0) by (destruct cp; [contradiction | cbn [length]; lia]).
+        cbn [compressed_len uncompressed_len]. replace (Z.of_nat (length cp) =? 0) with false by lia. reflexivity.
+  - split.
+    + rewrite header_data_compressed_arith by lia. change (2 ^ (8 * N.of_nat (hlen_of (Some k))))%N with 1099511627776%N. destruct sc; cbn [b2n]; lia.
+    + rewrite hod_c by lia. change (0 =? 0) with true. cbn iota. unfold payload_len. cbn [compressed_len uncompressed_len Z.eqb]. reflexivity.
 Qed.
